@@ -368,6 +368,7 @@ func TestVerif_C23_FollowMaster(t *testing.T) {
 		saveCase("c23", p)
 		rec := runSentinel(t, p)
 		if rec.Res.Frozen {
+			noteFrozen("c23", p, rec)
 			c.Inconclusive("virtual-clock-freeze")
 			return
 		}
